@@ -115,6 +115,8 @@ var verifC10JS = map[string]string{
 		r.push(entities[i]); r.push(entities[i]); } return r; }`,
 	"droplow": `function transform_entities(entities) { var r = []; for (var i = 0; i < entities.length; i++) {
 		var e = entities[i]; if (GetProperty(e, "ns3", "idx") >= 2) { r.push(e); } } return r; }`,
+	"pushin": `function transform_entities(entities) { var n = entities.length; for (var i = 0; i < n; i++) {
+		var c = NewEntity(); SetId(c, GetId(entities[i]) + "-c"); entities.push(c); } return entities; }`,
 	"create": `function transform_entities(entities) { var r = []; for (var i = 0; i < entities.length; i++) {
 		var e = entities[i]; r.push(e); var c = NewEntity(); SetId(c, GetId(e) + "-c"); r.push(c); } return r; }`,
 }
